@@ -197,12 +197,13 @@ def _n2(ctx, rep):
         if fld in outside:
             problems.append("read outside the class by %s" % sorted({f.qualname.split("quara.")[-1] for f, _ in outside[fld]}))
         # accessor: `if self._x is None: <build>` then return self._x
-        guard = [n for n in own_nodes(acc.node) if isinstance(n, ast.If) and unparse(n.test) == "self.%s is None" % fld]
-        if not guard:
+        from ..astutil import lazy_accessor
+        guarded, region, ret_ok = lazy_accessor(acc, fld)
+        if not guarded:
             problems.append("accessor has no `is None` guard")
         else:
             must = set()
-            for s in guard[0].body:
+            for s in region:
                 must |= ff.direct_stores(s, "self")
                 for c in ast.walk(s):
                     if isinstance(c, ast.Call):
@@ -211,8 +212,7 @@ def _n2(ctx, rep):
                             must |= ff.must_writes(cal)
             if fld not in must:
                 problems.append("the guarded build does not definitely assign self.%s" % fld)
-        rets = returns(acc)
-        if not rets or any(not unparse(r.value).startswith("self.%s" % fld) for r in rets):
+        if not ret_ok:
             problems.append("accessor does not return self.%s" % fld)
         # builder inputs
         for b in builders or [acc]:
